@@ -118,6 +118,8 @@ var c20Pool = []c20Line{
 	// a line ending in CR LF
 	{"crlf-print", "print", KwPrint + " 41 + 1;\r"},
 	{"crlf-error", "rt", "nx;\r"},
+	// one line with 1200 stray characters (1200 diagnostics)
+	{"lex-1200-strays", "lex", c20Long(1200, "@ ")},
 	// a literal too large for a number
 	{"lex-number-too-large", "lex", "1" + c20Long(400, "0") + ";"},
 	// indexing something that is not an array (strings of either representation)
